@@ -168,6 +168,17 @@ func (s *Sched) spawn(base context.Context, gen *Generation, name string, fn fun
 	return t
 }
 
+// adhocTask registers a task identity for a goroutine the simulator did not start (a batch
+// worker inside a store write).
+func (s *Sched) adhocTask(gen *Generation, name string) *Task {
+	s.mu.Lock()
+	defer s.mu.Unlock()
+	t := &Task{ID: s.nextID, Name: name, Gen: gen, wake: make(chan struct{})}
+	s.nextID++
+	s.tasks = append(s.tasks, t)
+	return t
+}
+
 // takeParked returns the parked tasks sorted by id and empties the list.
 func (s *Sched) snapshotParked() []*Task {
 	s.mu.Lock()
